@@ -109,6 +109,7 @@ def build_and_audit(log=None):
     lock = open(os.path.join(LEAN, ".lake", "verif.lock"), "w")
     fcntl.flock(lock, fcntl.LOCK_EX)
     try:
+        gen_report = regenerate_from_source()
         hsh = sources_hash()
         cache = os.path.join(LEAN, ".lake", "verif_audit.json")
         if os.path.exists(cache):
@@ -153,11 +154,77 @@ def build_and_audit(log=None):
                 axioms[m.group(1)] = []
             audit["audit_errors"] = "\n".join(l for l in out.splitlines() if "error" in l)[:2000]
         audit["axioms"] = axioms
+        audit["gen"] = audit_generated(gen_report) if audit["build_ok"] else {"report": gen_report, "modules": {}, "axioms": {}}
         json.dump(audit, open(cache, "w"), indent=1)
         return audit
     finally:
         fcntl.flock(lock, fcntl.LOCK_UN)
         lock.close()
+
+
+def regenerate_from_source():
+    """second tie (DESIGN.md section 16): translate the arithmetic helpers of /repo's CURRENT source into lean/XoGen/Src/*.lean"""
+    sys.path.insert(0, os.path.join(VERIF, "checks"))
+    try:
+        import pygen
+        return pygen.generate(REPO, os.path.join(LEAN, "XoGen", "Src"))
+    finally:
+        sys.path.pop(0)
+
+
+def gen_obligations():
+    """{tie module: {"theorems": {name: [properties]}, "source": "..."}} from checks/obligations.json["_generated"]"""
+    return json.load(open(os.path.join(VERIF, "checks", "obligations.json"))).get("_generated", {})
+
+
+def audit_generated(gen_report):
+    """build each tie module on its own (a failure is attributed to the helpers it proves, not to the whole project) and
+    audit the axioms of the equivalence theorems"""
+    res = {"report": gen_report, "modules": {}, "axioms": {}}
+    obl = gen_obligations()
+    for mod in sorted(obl):
+        p = subprocess.run(["lake", "build", mod], cwd=LEAN, capture_output=True, text=True)
+        log = "\n".join(l for l in (p.stdout + p.stderr).splitlines() if re.search(r"error|✖", l))[:1500]
+        res["modules"][mod] = {"ok": p.returncode == 0, "log": log}
+    okmods = [m for m, r in res["modules"].items() if r["ok"]]
+    if okmods:
+        names = [n for m in okmods for n in obl[m]["theorems"]]
+        apath = os.path.join(LEAN, ".lake", "AuditGen.lean")
+        open(apath, "w").write("\n".join(f"import {m}" for m in okmods) + "\n" + "\n".join(f"#print axioms {n}" for n in names) + "\n")
+        q = subprocess.run(["lake", "env", "lean", apath], cwd=LEAN, capture_output=True, text=True)
+        out = q.stdout + q.stderr
+        for m in re.finditer(r"'([^']+)' depends on axioms: \[([^\]]*)\]", out):
+            res["axioms"][m.group(1)] = [a.strip() for a in m.group(2).replace("\n", " ").split(",") if a.strip()]
+        for m in re.finditer(r"'([^']+)' does not depend on any axioms", out):
+            res["axioms"][m.group(1)] = []
+    return res
+
+
+def gen_problems(prop, audit):
+    """(names of source-equivalence theorems this property rests on, discharged ones, problems)"""
+    obl = gen_obligations()
+    gen = audit.get("gen") or {"modules": {}, "axioms": {}, "report": {}}
+    expected, discharged, problems = [], [], []
+    for mod, spec in sorted(obl.items()):
+        for thm, props in spec["theorems"].items():
+            if prop not in props:
+                continue
+            expected.append(thm)
+            st = gen["modules"].get(mod)
+            if st is None or not st["ok"]:
+                why = (st or {}).get("log", "not built")
+                rep = "; ".join(f"{k}: {v}" for k, v in (gen.get("report") or {}).items() if v != "ok")
+                problems.append(f"source tie {thm} ({spec.get('source', mod)}): the definition translated from /repo's current source is no "
+                                f"longer proved equal to the model [{rep}] {why[:400]}")
+                continue
+            ax = gen["axioms"].get(thm)
+            if ax is None:
+                problems.append(f"source tie {thm}: no `#print axioms` result")
+            elif not set(ax) <= ALLOWED_AXIOMS:
+                problems.append(f"source tie {thm} depends on axioms {ax}")
+            else:
+                discharged.append(thm)
+    return expected, discharged, problems
 
 
 def obligations_for(prop, audit):
@@ -184,7 +251,8 @@ def obligations_for(prop, audit):
             discharged.append(t)
     for t in sorted(present - set(expected)):
         problems.append(f"theorem {t} is in Props/{prop}.lean but not pinned in checks/obligations.json")
-    return expected, discharged, problems
+    ge, gd, gp = gen_problems(prop, audit)
+    return expected + ge, discharged + gd, problems + gp
 
 
 MEM_LIMIT = 16 << 30       # address space of a harness process that drives the real code (a changed library may ask for anything)
